@@ -252,6 +252,8 @@ class HumanMessageSerializer:
         # Only show the pretty form if packing it gives the original value back, otherwise the
         # text would parse to a different message than the one it was made from.
         try:
+            # A non-finite float would be shown as a bare name inside the literal, which can't be read back
+            ast.literal_eval(repr(pretty_data))
             packed = serializer.serialize(block, pretty_data)
         except:
             return False
